@@ -373,3 +373,34 @@ Proof.
     destruct (flush_loop_aligned _ _ _ _ _ Hok Hinv Hrun Hao Hai) as [R1 [R2 [R3 R4]]].
     repeat split; try assumption. left; exact R2.
 Qed.
+
+(* ====================================================================================== *)
+(* C05: pushing output into the caller's buffer and taking it hand out the same bytes and   *)
+(* leave the same encoder state                                                             *)
+(* ====================================================================================== *)
+Lemma push_take_same s x n :
+  avail_out_ s <> 0 -> n <> 0 -> cap x = n ->
+  (sstate_ s = SFlushRequested -> last_bytes_bits s = 0) ->
+  N.min (avail_out_ s) n <= lenN (view s) ->
+  let k := N.min (avail_out_ s) n in
+  exists s1 x1,
+    inject_flush_or_push_output s x = Done (Some (s1, x1))
+    /\ produced x1 = produced x ++ takeN k (view s)
+    /\ avail_in x1 = avail_in x /\ in_off x1 = in_off x
+    /\ take_output s n = Done (takeN k (view s), check_flush_complete s1).
+Proof.
+  intros Ha Hn Hc Hfl Hlen k. subst k.
+  unfold inject_flush_or_push_output, take_output.
+  assert (G : sstate_eqb (sstate_ s) SFlushRequested && negb (last_bytes_bits s =? 0) = false).
+  { destruct (sstate_eqb (sstate_ s) SFlushRequested) eqn:E; [|reflexivity].
+    apply sstate_eqb_spec in E. rewrite (Hfl E). reflexivity. }
+  rewrite G. rewrite Hc.
+  destruct (N.eqb_spec (avail_out_ s) 0) as [E|_]; [contradiction|].
+  destruct (N.eqb_spec n 0) as [E|_]; [contradiction|]. cbn [negb andb].
+  destruct (N.ltb_spec (lenN (view s)) (N.min (avail_out_ s) n)) as [E|_]; [lia|].
+  rewrite (N.min_comm n (avail_out_ s)).
+  destruct (N.eqb_spec (N.min (avail_out_ s) n) 0) as [E|_]; [lia|].
+  destruct (N.ltb_spec (lenN (view s)) (N.min (avail_out_ s) n)) as [E|_]; [lia|].
+  eexists; eexists. split; [reflexivity|]. cbn [produced avail_in in_off io_push].
+  repeat split; reflexivity.
+Qed.
